@@ -4,11 +4,11 @@ go 1.26
 
 require (
 	github.com/anishathalye/porcupine v1.3.0
+	github.com/lesismal/llib v1.2.4
 	github.com/lesismal/nbio v0.0.0
 )
 
 require (
-	github.com/lesismal/llib v1.2.4 // indirect
 	golang.org/x/crypto v0.0.0-20210513122933-cd7d49e622d5 // indirect
 	golang.org/x/sys v0.0.0-20210423082822-04245dca01da // indirect
 )
